@@ -32,6 +32,8 @@ MANIFEST = {
 }
 BUDGET = {'quick': 80, 'thorough': 1500}
 MISMATCH_BUDGET = 0.0
+ESCALATE_BUDGET = 120
+SEARCH_BUDGET = 120
 RULE = ('same generator as C01 (all event kinds, connected arbitrary gradients, independent writer/reader systems, block cache on '
         'or off). Oracle: write twice -> identical bytes incl. [SIGNATURE]; snapshot of get_block(i) for all i and of every '
         'library (data, type, keymap, next id), block table and durations before == after write; write, read with another system, '
